@@ -4,7 +4,8 @@ import os
 from vf import common
 
 CATS = ['app-misc', 'dev-libs', 'sys-apps', 'virtual', 'x11-base']
-PKGS = ['foo', 'foo-bin', 'bar', 'bar2', 'libbaz', 'qux-tools', 'zed']
+PKGS = ['foo', 'foo-bin', 'bar', 'bar2', 'libbaz', 'qux-tools', 'zed', '0ad', 'Babel',
+        'GConf']
 
 
 def gen_repo(rng, portable=True, with_ignored=True, odd=False):
